@@ -411,3 +411,16 @@ class P(Prop):
             yield dict(case, cutoff="inf")
         if case["keepAll"]:
             yield dict(case, keepAll=False)
+
+
+# ---- pipeline-level cases (DESIGN.md §5 C06 K): rows of get_protein_group_results for every shipped method
+# against the composed Lean model PgFdr.Pipeline.run, with the C06 statement (this module's oracle on the
+# arguments observed at the last from_protein_groups call) as the oracle
+import pipeline as _pl  # noqa: E402
+
+_BaseP = P
+
+
+class P(_pl.PipelineMixin, _BaseP):
+    pipeline_share = 0.1
+    pipeline_oracles = ("c06",)
